@@ -434,8 +434,14 @@ def check_bounds(prog, rep):
         rep.violate(R, construct, "the last stop is not len(labels): the final run is dropped or cut short", where(f))
         good = False
     ldef = [s for s in post if isinstance(s, ast.Assign) and dump(s.targets[0]) == LEN]
-    if len(ldef) != 1 or _strip(dump(ldef[0].value)) != "%s-%s" % (E, S):
-        rep.violate(R, construct, "lengths are %s, not stops - starts" % (dump(ldef[0].value) if ldef else "missing"), where(f))
+    lval = _strip(dump(ldef[0].value)) if len(ldef) == 1 else (_strip(LEN) if not ldef and not LEN.isidentifier() else None)
+    # the arrays returned as starts / stops may be conversions of the lists (numpy.int_(list)): follow one step
+    conv = {dump(s.targets[0]): s for s in post if isinstance(s, ast.Assign)}
+    if lval is None:
+        rep.unrec(R, construct, "lengths %s not computed after the scan" % LEN)
+        good = False
+    elif lval != "%s-%s" % (E, S):
+        rep.violate(R, construct, "lengths are %s, not stops - starts" % lval, where(f), "%s-%s" % (E, S), lval)
         good = False
     if good:
         rep.ok(R, construct, "run-length encoding: starts [0]+boundaries, stops boundaries+[len], boundary iff labels[i] != running label, lengths stops-starts")
